@@ -983,11 +983,33 @@ Proof.
   - replace (e =? 0) with false by (unfold ErrLimit, ErrTooLarge in He; lia). tauto.
 Qed.
 
-Theorem step_refines s o orc : inv s -> op_ok o ->
+(* what every step preserves; UnmarshalStream does not look at the Limit *)
+Definition okstep_op (o : op) (s s' : state) : Prop :=
+  inv s' /\ limit s' = limit s /\ (lim_ok s -> is_unmarshal o = false -> lim_ok s').
+Lemma okstep_okstep_op o s s' : okstep s s' -> okstep_op o s s'.
+Proof. unfold okstep, okstep_op. tauto. Qed.
+
+Lemma unmarshal_spec s r e orc : op_ok (OUnmarshal r e) ->
+  inv (unmarshal s r orc) /\ limit (unmarshal s r orc) = limit s /\
+  past (unmarshal s r orc) = [] /\ abs (unmarshal s r orc) = match r with Some b => b | None => [] end.
+Proof.
+  intros Hop. destruct (clear_spec s) as ((Ic & _) & Ac & Pc). unfold clear in *.
+  destruct r as [b|]; cbn [unmarshal]; [|tauto].
+  destruct b as [|x b']; cbn [is_nil]; [tauto|]. cbn [op_ok] in Hop.
+  set (b := x :: b') in *. pose proof (len_nonneg b) as Hl.
+  assert (Hm : len (b ++ repeat 0 (Z.to_nat (Z.max (len b) orc - len b))) = Z.max (len b) orc)
+    by (rewrite len_app, len_repeat; lia).
+  unfold inv, past, abs, buf; sim. rewrite Hm.
+  splits; try lia; try discriminate; try reflexivity.
+  - apply bl_app; [assumption | apply bl_zeros].
+  - rewrite dr_0 by lia. apply tk_app_exact. reflexivity.
+Qed.
+
+Lemma step_refines_core s o orc : inv s -> op_ok o -> is_unmarshal o = false ->
   exists s' r, step s o orc = Ok (s', r) /\ okstep s s' /\
     qstep (limit s) (past s) (abs s) o r (past s') (abs s').
 Proof.
-  intros H Hop. destruct o; cbn [step op_ok] in *.
+  intros H Hop Hnu. destruct o; cbn [step op_ok is_unmarshal] in *.
   - destruct (write_spec s b orc H Hop) as (s' & n & e & Hw & OK & Q & _). rewrite Hw. cbn [bind].
     exists s', (RNE n e). tauto.
   - destruct (write_fixed_spec s (be_bytes w v) orc H (bl_be_bytes w v)) as (s' & e & Hw & TP). rewrite Hw. cbn [bind].
@@ -1019,11 +1041,28 @@ Proof.
   - destruct (read_from_loop_spec reads s 0 [] H Hop) as (s' & t' & e & reqs' & Hr & OK & Ht & A & P). rewrite Hr. cbn [bind].
     exists s', (RReadFrom t' e reqs'). split; [reflexivity|]. split; [exact OK|].
     cbn [qstep]. replace (t' - 0) with t' in A by lia. splits; try lia; assumption.
+  - discriminate.
+  - rewrite slice_abs by assumption. cbn [bind]. exists s, (RData (enc_bytes (abs s)) 0).
+    split; [reflexivity|]. split; [apply okstep_refl; assumption|]. cbn [qstep]. auto.
+Qed.
+
+Theorem step_refines s o orc : inv s -> op_ok o ->
+  exists s' r, step s o orc = Ok (s', r) /\ okstep_op o s s' /\
+    qstep (limit s) (past s) (abs s) o r (past s') (abs s').
+Proof.
+  intros H Hop. destruct (is_unmarshal o) eqn:Eu.
+  - destruct o; try discriminate. cbn [step].
+    destruct (unmarshal_spec s r e orc Hop) as (I & L & P & A).
+    eexists _, _. split; [reflexivity|].
+    split; [unfold okstep_op; cbn [is_unmarshal]; splits; [exact I | exact L | discriminate]|].
+    cbn [qstep]. rewrite P, A. destruct r; auto.
+  - destruct (step_refines_core s o orc H Hop Eu) as (s' & r & E & OK & Q).
+    exists s', r. split; [exact E|]. split; [apply okstep_okstep_op; exact OK | exact Q].
 Qed.
 
 (* what a step that returned is known to satisfy *)
 Lemma step_ok s o orc s' r : inv s -> op_ok o -> step s o orc = Ok (s', r) ->
-  okstep s s' /\ qstep (limit s) (past s) (abs s) o r (past s') (abs s').
+  okstep_op o s s' /\ qstep (limit s) (past s) (abs s) o r (past s') (abs s').
 Proof.
   intros H Hop E. destruct (step_refines s o orc H Hop) as (s2 & r2 & E2 & OK & Q).
   rewrite E in E2. injection E2 as <- <-. tauto.
@@ -1039,20 +1078,23 @@ Proof. intros H Hop. destruct (step_refines s o orc H Hop) as (s' & r & E & _). 
 (* 11. histories                                                                                    *)
 (* ================================================================================================ *)
 Definition ops_ok (l : list (op * Z)) : Prop := Forall (fun x => op_ok (fst x)) l.
+Definition no_unmarshal (l : list (op * Z)) : Prop := Forall (fun x => is_unmarshal (fst x) = false) l.
 
 Theorem run_refines : forall l s, inv s -> ops_ok l ->
-  exists s' rs, run s l = Ok (s', rs) /\ okstep s s' /\ length rs = length l /\
+  exists s' rs, run s l = Ok (s', rs) /\
+    (inv s' /\ limit s' = limit s /\ (lim_ok s -> no_unmarshal l -> lim_ok s')) /\ length rs = length l /\
     qsteps (limit s) (past s) (abs s) (history l rs) (past s') (abs s').
 Proof.
   induction l as [|[o orc] l IH]; intros s H Hl.
-  - exists s, []. cbn [run]. split; [reflexivity|]. split; [apply okstep_refl; assumption|].
+  - exists s, []. cbn [run]. split; [reflexivity|]. split; [tauto|].
     split; [reflexivity|]. cbn. tauto.
   - inversion Hl as [|x l0 Ho Hl']; subst. cbn [fst] in Ho.
     destruct (step_refines s o orc H Ho) as (s1 & r & E & OK1 & Q).
-    pose proof OK1 as (I1 & L1 & _).
-    destruct (IH s1 I1 Hl') as (s' & rs & Er & OK & Hlen & Qs).
+    pose proof OK1 as (I1 & L1 & LO1).
+    destruct (IH s1 I1 Hl') as (s' & rs & Er & (I' & L' & LO') & Hlen & Qs).
     exists s', (r :: rs). cbn [run]. rewrite E. cbn [bind]. rewrite Er. cbn [bind].
-    split; [reflexivity|]. split; [eapply okstep_trans; eassumption|].
+    split; [reflexivity|].
+    split; [splits; [exact I' | congruence | intros Hlim Hnu; inversion Hnu as [|x l0 Hn1 Hn']; subst; cbn [fst] in Hn1; auto]|].
     split; [cbn [length]; lia|].
     unfold history. cbn [map fst combine qsteps]. exists (past s1), (abs s1).
     split; [exact Q|]. rewrite L1 in Qs. exact Qs.
@@ -1074,14 +1116,14 @@ Proof.
 Qed.
 
 (* the Limit: a buffer within its Limit stays within it, after every step of every history *)
-Theorem limit_invariant l1 l2 s s' rs : inv s -> lim_ok s -> ops_ok (l1 ++ l2) ->
+Theorem limit_invariant l1 l2 s s' rs : inv s -> lim_ok s -> ops_ok (l1 ++ l2) -> no_unmarshal l1 ->
   run s (l1 ++ l2) = Ok (s', rs) ->
   exists s1 r1, run s l1 = Ok (s1, r1) /\ limit s1 = limit s /\ (0 < limit s -> blen s1 <= limit s).
 Proof.
-  intros H Hlim Hl E. unfold ops_ok in Hl. apply Forall_app in Hl. destruct Hl as (Hl1 & Hl2).
+  intros H Hlim Hl Hnu E. unfold ops_ok in Hl. apply Forall_app in Hl. destruct Hl as (Hl1 & Hl2).
   destruct (run_refines l1 s H Hl1) as (s1 & r1 & E1 & (I1 & L1 & LO1) & _).
   exists s1, r1. split; [exact E1|]. split; [exact L1|].
-  intros Hpos. specialize (LO1 Hlim). unfold lim_ok in LO1. rewrite L1 in LO1. auto.
+  intros Hpos. specialize (LO1 Hlim Hnu). unfold lim_ok in LO1. rewrite L1 in LO1. auto.
 Qed.
 
 (* ---- FIFO: the queue only loses bytes at the front and only gains bytes at the back ------------- *)
